@@ -57,7 +57,7 @@ theorem rowOfStage_eq (d : Doc) (o : Opts) (st : List Node) :
 theorem exportParts_noRange (d : Doc) (o : Opts) (hf : o.fromM = none) (ht : o.toM = none) :
     exportParts d o = (bodyRows d o 0 (d.stages.length - 1)).map (fun b => ⟨[], b, []⟩) := by
   unfold exportParts
-  simp only [validate, hf, ht, hasFrom, toStageOf, terminatorFor, bind, Except.bind, pure, Except.pure, Bool.false_eq_true, if_false]
+  simp only [validate, fromPart, hf, ht, hasFrom, toStageOf, terminatorFor, bind, Except.bind, pure, Except.pure, Bool.false_eq_true, if_false]
   cases bodyRows d o 0 (d.stages.length - 1) with
   | error e => rfl
   | ok b => rfl
